@@ -4,6 +4,7 @@
 // Op grammar (tokens are hex, "-" = empty; <hdr> = "-" or "key=v,v;key=~;…", keys sorted):
 //
 //	hbh <hdr>                                              header.NewHopByHopModifier alone
+//	hbhres <status> <hdr>                                  header.NewHopByHopModifier's ModifyResponse alone, any status code
 //	via <maj> <min> <name> <boundary> <hdr>                header.NewViaModifier alone (SetBoundary)
 //	fwd <scheme> <host> <url> <remote> <hdr>               header.NewForwardedModifier alone
 //	framing <hdr>                                          header.NewBadFramingModifier alone
@@ -252,6 +253,35 @@ func (e *ex) Do(op string) core.Result {
 			r.Fail, r.Sig = f.msg, f.sig
 		}
 		core.Count("op:hbh")
+		return r
+	case "hbhres":
+		// the hop-by-hop modifier's response side alone, on a response with the given status
+		if len(t) != 3 {
+			break
+		}
+		h, ok := decHeader(t[2])
+		if !ok {
+			break
+		}
+		status := atoi(t[1])
+		before := cloneHeader(h)
+		req := &http.Request{Method: "GET", URL: &url.URL{Scheme: "http", Host: "h", Path: "/"}, Header: http.Header{}}
+		res := proxyutil.NewResponse(status, nil, req)
+		res.Header = h
+		err := header.NewHopByHopModifier().ModifyResponse(res)
+		r := core.Result{Impl: fmt.Sprintf("%d %s", res.StatusCode, encHeader(res.Header))}
+		if err != nil {
+			r.Fail, r.Sig = "hop-by-hop modifier returned an error: "+err.Error(), "c14:hbh-error"
+			return r
+		}
+		fs := oracleHop(before, res.Header, nil)
+		if res.StatusCode != status {
+			fs = append(fs, &fl{"c14:status-changed", fmt.Sprintf("hop-by-hop modifier changed the status %d to %d", status, res.StatusCode)})
+		}
+		if f := first(fs); f != nil {
+			r.Fail, r.Sig = fmt.Sprintf("response status %d: %s", status, f.msg), f.sig
+		}
+		core.Count("op:hbhres")
 		return r
 	case "via":
 		if len(t) != 6 {
